@@ -51,7 +51,7 @@ func Is(err, reference error) bool {
 	// Direct reference comparison is the fastest, and most
 	// likely to be true, so do this first.
 	for c := err; c != nil; c = errbase.UnwrapOnce(c) {
-		if isComparable && c == reference {
+		if isComparable && identical(c, reference) {
 			return true
 		}
 		// Compatibility with std go errors: if the error object itself
@@ -89,6 +89,19 @@ func Is(err, reference error) bool {
 		}
 	}
 	return false
+}
+
+// identical compares two error values with ==. That the type of the
+// reference is comparable does not guarantee that the comparison is
+// defined: a comparable struct or array can hold an interface whose
+// dynamic value is not comparable, in which case == panics.
+func identical(err, reference error) (res bool) {
+	defer func() {
+		if r := recover(); r != nil {
+			res = false
+		}
+	}()
+	return err == reference
 }
 
 func tryDelegateToIsMethod(err, reference error) bool {
@@ -170,7 +183,7 @@ func IsAny(err error, references ...error) bool {
 				continue
 			}
 			isComparable := reflect.TypeOf(refErr).Comparable()
-			if isComparable && c == refErr {
+			if isComparable && identical(c, refErr) {
 				return true
 			}
 			// Compatibility with std go errors: if the error object itself
